@@ -381,6 +381,41 @@ func init() {
 		"reflect.DeepEqual": func(fr *frame, a []value) value {
 			return fr.i.deepEqualIface(a[0].(iface), a[1].(iface))
 		},
+		"(reflect.Value).IsZero": func(fr *frame, a []value) value {
+			v := rV2V(a[0])
+			switch x := v.(type) {
+			case nil:
+				return true
+			case bool:
+				return !x
+			case string:
+				return x == ""
+			case float64:
+				return x == 0
+			case int:
+				return x == 0
+			case int64:
+				return x == 0
+			case *value:
+				return x == nil
+			case []value:
+				return x == nil
+			case iface:
+				return x.t == nil
+			case map[value]value:
+				return x == nil
+			case *hashmap:
+				return x == nil
+			case structure:
+				for _, e := range x {
+					if !isEmptyJSON(e) {
+						return false
+					}
+				}
+				return true
+			}
+			panic(unsupported(fmt.Sprintf("reflect.Value.IsZero of %T", v)))
+		},
 		"strconv.Itoa":  func(fr *frame, a []value) value { return fmt.Sprint(a[0].(int)) },
 		"strconv.Quote": func(fr *frame, a []value) value { return fmt.Sprintf("%q", a[0].(string)) },
 	} {
